@@ -62,6 +62,8 @@ pub enum WireKind {
 #[derive(Debug, Clone)]
 pub struct WireEvt {
     pub step: u32,
+    /// Virtual milliseconds since the start of the execution.
+    pub ms: u64,
     pub link: u8,
     pub dir: u8,
     pub kind: WireKind,
@@ -71,17 +73,24 @@ pub struct WireEvt {
 /// Log of everything that happened on all links of an execution.
 pub struct WireLog {
     ctl: Arc<Ctl>,
+    t0: Mutex<Option<tokio::time::Instant>>,
     pub events: Mutex<Vec<WireEvt>>,
 }
 
 impl WireLog {
     pub fn new(ctl: Arc<Ctl>) -> Arc<Self> {
-        Arc::new(Self { ctl, events: Mutex::new(Vec::new()) })
+        Arc::new(Self { ctl, t0: Mutex::new(None), events: Mutex::new(Vec::new()) })
+    }
+
+    /// Must be called inside the runtime.
+    pub fn start_clock(&self) {
+        *self.t0.lock().unwrap() = Some(tokio::time::Instant::now());
     }
 
     fn push(&self, link: u8, dir: u8, kind: WireKind, frame: Bytes) {
         let step = self.ctl.step();
-        self.events.lock().unwrap().push(WireEvt { step, link, dir, kind, frame });
+        let ms = self.t0.lock().unwrap().map(|t| t.elapsed().as_millis() as u64).unwrap_or(0);
+        self.events.lock().unwrap().push(WireEvt { step, ms, link, dir, kind, frame });
     }
 
     pub fn len(&self) -> usize {
